@@ -47,6 +47,11 @@ Lemma gen_panic_sites_reviewed :
   forallb (fun s => existsb (fun r => site_eqb s (fst r)) reviewed_panic_sites) SwitchGen.panic_sites = true.
 Proof. vm_compute. reflexivity. Qed.
 
+(* every unchecked type assertion the translator finds in the decoder's files has been reviewed *)
+Lemma gen_type_assertions_reviewed :
+  forallb (fun s => existsb (fun r => site_eqb s (fst r)) reviewed_type_assertions) SwitchGen.unchecked_type_assertions = true.
+Proof. vm_compute. reflexivity. Qed.
+
 (* the outer switch of scalarReflectFromGo has an arm for every kind the model converts, and no arm
    the model does not know (\"Any\": a scalar schema of type any is never built by the reflector) *)
 Lemma gen_scalar_kinds_agree :
